@@ -242,9 +242,54 @@ def runClosed (types : String) (obs : List String) : Verdict :=
       (if bs.length ≥ 1 then ["nt"] else [])
     { agree := modelOut == " ".intercalate obs, spec := spec, tags := tags, model := modelOut }
 
+/-- `C20 G <fmt> <types> <coords> <names> => ok <el>.. | anchor <b>,<b> | rej <kind> | shape c=<n> a=<m> | panic`:
+    a glif document (format 1 or 2, names on some points, coordinates that may coincide) parsed by the real parser and
+    its contour converted.  The expected path is the model's on the point list OF THE XML (this line's input): a parser
+    that drops, merges or moves a point on the way to `to_kurbo` shows as a violated rule of the property. -/
+def runGlif (fmt types coords names : String) (obs : List String) : Verdict :=
+  match parsePts types coords with
+  | none => { agree := false, model := "bad-input" }
+  | some pts =>
+    let legal := C11.legalB (pts.map (·.base))
+    let named := names.toList.map (· == '1')
+    let coincide := decide ((pts.map (·.pos)).eraseDups.length < pts.length)
+    let extra := ["glif", "fmt" ++ fmt] ++ (if named.any id then ["named"] else []) ++
+      (if coincide then ["coincide"] else [])
+    -- format 1: a contour that is exactly one named `move` is an implicit anchor (the only case)
+    let isAnchor := fmt == "1" && (match pts, named with
+      | [p], [true] => p.typ == .move
+      | _, _ => false)
+    if !legal then
+      let m := "rej"
+      let impl := match obs with | "rej" :: _ => "rej" | _ => " ".intercalate obs
+      { agree := m == impl, spec := (match obs with | "panic" :: _ => ["panic"] | _ => []),
+        tags := "illegal" :: extra, model := m }
+    else if isAnchor then
+      let m := match pts with | [p] => "anchor " ++ showP p.pos | _ => "?"
+      let impl := match obs with
+        | ["anchor", c] => (match (c.splitOn ",").mapM (bitsTok 2) with
+            | some [x, y] => "anchor " ++ showP (x, y)
+            | _ => " ".intercalate obs)
+        | _ => " ".intercalate obs
+      { agree := m == impl, spec := (if m == impl then [] else ["implicit-anchor:fmt1"]),
+        tags := ["legal", "anchor", "nt"] ++ extra, model := m }
+    else
+      match obs with
+      | "ok" :: _ =>
+        let v := runPath types coords obs
+        { v with tags := v.tags ++ extra, spec := v.spec.map (fun r => r ++ ",glif-fmt" ++ fmt) }
+      | "rej" :: _ =>
+        let v := runPath types coords ["err"]
+        { v with tags := v.tags ++ extra, spec := v.spec.map (fun r => r ++ ",glif-fmt" ++ fmt) }
+      | _ =>
+        -- the parser did not return exactly this one contour (dropped, split, turned into an anchor)
+        let v := runPath types coords ["shape"]
+        { agree := false, spec := ["contour-differs-from-xml:glif-fmt" ++ fmt], tags := v.tags ++ extra, model := v.model }
+
 def run (inp obs : List String) : Verdict :=
   match inp with
   | [_, "K", types, coords] => runPath types coords obs
+  | [_, "G", fmt, types, coords, names] => runGlif fmt types coords names obs
   | [_, "C", types] => runClosed types obs
   | _ :: "T" :: args => runTransform args obs
   | _ => { agree := false, model := "bad-line" }
